@@ -127,6 +127,11 @@ func (r *Runner) Resolve(ctx context.Context, v Expression) (result interface{},
 func try2Float64(v interface{}) interface{} {
 	switch n := v.(type) {
 	case *decimal.Big:
+		if n.IsFinite() {
+			if f, err := strconv.ParseFloat(n.String(), 64); err == nil {
+				return f
+			}
+		}
 		r, _ := n.Float64()
 		return r
 	}
